@@ -145,7 +145,7 @@ def check_map(fragments, written, smap, normalize):
         how = 'exact'
         if exact:
             seg = exact[-1]
-        elif normalize and name is None:
+        elif normalize and (name is None or name == text):
             prior = [s for s in segs if s[0] <= gc]
             if prior and prior[-1][1] is not None:
                 p = prior[-1]
@@ -169,7 +169,13 @@ def check_map(fragments, written, smap, normalize):
                          'fragment %r written at generated %d:%d decodes (%s) to %r %d:%d, the fragment carried %r %d:%d' % (
                              (text[:20], gl, gc, how) + got + (want_source, lineno, colno))))
             continue
-        if name is not None:
+        if name is not None and name == text:
+            # a fragment that records its own text as "original name" is not renamed: the map may name it or
+            # not, but a name it gives must be that one
+            if seg[4] is not None and names[seg[4]] != name:
+                viol.append(('C09:wrong_or_missing_name',
+                             'fragment %r at generated %d:%d decodes to name %r' % (text[:20], gl, gc, names[seg[4]])))
+        elif name is not None:
             if seg[4] is None or names[seg[4]] != name:
                 viol.append(('C09:wrong_or_missing_name',
                              'renamed fragment %r (original %r) at generated %d:%d decodes to name %r' % (
